@@ -2676,6 +2676,9 @@ PPL::Grid::time_elapse_assign(const Grid& y) {
   if (gs.has_no_rows()) {
     // `y' was the grid containing a single point at the origin, so
     // the result is `x'.
+    // Note that normalize_divisors() may have multiplied the generators
+    // of `x' by a common factor: they are no longer in minimal form.
+    x.clear_generators_minimized();
     return;
   }
 
